@@ -341,6 +341,9 @@ const S2_ADD: &[&str] = &[
     // a redirect that is also an exception / an important rule: two categories at once
     "@@||r.com^$redirect=a",
     "||rr.com/x$important,redirect=a",
+    // a redirect with a tag (the source calls the combination unsupported: whatever it does, it does
+    // the same however the rule reached the blocker)
+    "||tr.com^$redirect=a,tag=a",
 ];
 const S2_URLS: &[(&str, &str)] = &[
     ("https://b1.com/x", "script"),
@@ -358,6 +361,7 @@ const S2_URLS: &[(&str, &str)] = &[
     // a pattern-less rule with two initiator domains is reachable from both
     ("https://lib.test/x.js?from=d1.com", "script"),
     ("https://lib.test/x.js?from=d2.com", "script"),
+    ("https://tr.com/x", "script"),
 ];
 
 #[derive(Clone, Copy, Debug, PartialEq)]
@@ -835,7 +839,9 @@ fn replay(case: &Value, l: &mut Local) {
                 .collect()
         })
         .unwrap_or_default();
-    let p = Prepared { s1: s1_prepare(), s2: s2_prepare(seq.len(), false), s3: s3_prepare(), s4: s2_prepare(seq.len(), true) };
+    // (the model states of scenario 2 / 4 a history can reach: as many added rules as it has `Add`s)
+    let adds = if scn == 2 || scn == 4 { let o = s2_ops(); seq.iter().filter(|&&i| matches!(o.get(i), Some(Op2::Add(_)))).count() } else { 0 };
+    let p = Prepared { s1: s1_prepare(), s2: s2_prepare(if scn == 2 { adds } else { 0 }, false), s3: s3_prepare(), s4: s2_prepare(if scn == 4 { adds } else { 0 }, true) };
     let res = ResourceStorage::from_resources(resources());
     // run on a fresh thread so that the free lists start empty, like in a fresh process
     std::thread::scope(|sc| {
